@@ -334,13 +334,14 @@ func c04Sampled(c *caseCtx) {
 	}
 }
 
-// biases whose effect is a deterministic function of the data (no per-alternative random draw): the utilities after them
+// biases (mixing, reversal, omission, anchoring) whose effect is a deterministic function of the data (no per-alternative random draw): the utilities after them
 // are still independent of the listing order. Dyadic / small-integer values keep every accumulation over alternatives
 // (importance sums, observed ranges) exact, so no order of summation can matter.
 func c04Biased(c *caseCtx) {
 	method := []string{"weightedSum", "owa", "choquetIntegral"}[c.idx%3]
 	o := genOpts{method: method, minAlt: 3, maxAlt: 8, minCrit: 2, maxCrit: 4, allCons: c.idx % 2, negValues: true, allFire: true,
-		nBiases: 1 + c.rng.Intn(2), biasPool: []string{"criteriaMixing", "preferenceReversal", "criteriaOmission"}, profile: []string{profTies, profDyadic}[c.rng.Intn(2)]}
+		nBiases: 1 + c.rng.Intn(2), biasPool: []string{"criteriaMixing", "preferenceReversal", "criteriaOmission", "anchoring"}, profile: []string{profTies, profDyadic}[c.rng.Intn(2)],
+		anchorZeroCoef: true, noRandom: true}
 	g := genRequest(c.rng, o)
 	d := decide(g.body(), false)
 	c.count("evaluations", 1)
@@ -418,7 +419,7 @@ func init() {
 			{name: "exhaustive", n: func(string) int { return c04VectorCount() }, unit: 1400, run: c04Exhaustive, exhaustive: true,
 				note: "all value vectors in {0..3}^n, n<=6"},
 			{name: "sampled-biased", n: tierN(6000, 100000), unit: 1500, run: c04Biased, floors: map[string]int64{"permutations_after_biases": 9000},
-				note: "1..2 fired biases out of mixing / reversal / omission (no per-alternative random draws), exact (dyadic / small-integer) data, values outside declared ranges included: value, class and links per alternative under 3 permutations"},
+				note: "1..2 fired biases out of mixing / reversal / omission / anchoring (no per-alternative random draws; anchoring alternatives with and without coefficients), exact (dyadic / small-integer) data, values outside declared ranges included: value, class and links per alternative under 3 permutations"},
 			{name: "sampled-service", n: tierN(2000, 30000), unit: 1000, run: c04Sampled, service: true,
 				note: "the same generator and oracle as the stream named in front of the dash, but every request goes through decideHandler of main.go in-process (gin binding, the handler's own request object) after a history of 1..3 unrelated requests (accepted and rejected)"},
 			{name: "sampled", n: tierN(6000, 150000), unit: 1500, run: c04Sampled, floors: map[string]int64{"permutations": 10000, "nontrivial": 4000}},
